@@ -64,6 +64,8 @@ mod io;
 mod process;
 mod select;
 mod signal;
+#[cfg(feature = "verif-hooks")]
+pub mod sim_hook;
 pub mod sigset;
 
 pub use self::file_body::*;
@@ -464,6 +466,10 @@ impl VirtualSystem {
                 EnumSet::empty()
             },
         };
+        #[cfg(feature = "verif-hooks")]
+        if sim_hook::fail_fd_alloc(self.process_id, "create_fd") {
+            return Err(Errno::EMFILE);
+        }
         self.current_process_mut()
             .open_fd(body)
             .map_err(|_| Errno::EMFILE)
@@ -578,6 +584,10 @@ impl Pipe for VirtualSystem {
             flags: EnumSet::empty(),
         };
 
+        #[cfg(feature = "verif-hooks")]
+        if sim_hook::fail_fd_alloc(self.process_id, "pipe") {
+            return Err(Errno::EMFILE);
+        }
         let mut process = self.current_process_mut();
         let reader = process.open_fd(reader).map_err(|_| Errno::EMFILE)?;
         let writer = process.open_fd(writer).map_err(|_| {
@@ -590,6 +600,12 @@ impl Pipe for VirtualSystem {
 
 impl Dup for VirtualSystem {
     fn dup(&self, from: Fd, to_min: Fd, flags: EnumSet<FdFlag>) -> Result<Fd> {
+        #[cfg(feature = "verif-hooks")]
+        if self.current_process().fds.contains_key(&from)
+            && sim_hook::fail_fd_alloc(self.process_id, "dup")
+        {
+            return Err(Errno::EMFILE);
+        }
         let mut process = self.current_process_mut();
         let mut body = process.fds.get(&from).ok_or(Errno::EBADF)?.clone();
         body.flags = flags;
@@ -623,6 +639,8 @@ impl Open for VirtualSystem {
         let system = self.clone();
 
         async move {
+            #[cfg(feature = "verif-hooks")]
+            sim_hook::preempt_point(system.process_id, "open").await;
             let (file, is_readable, is_writable) = resolution?;
 
             if let FileBody::Fifo { readers, .. } = &mut file.borrow_mut().body {
@@ -667,6 +685,10 @@ impl Open for VirtualSystem {
             open_file_description,
             flags: EnumSet::empty(),
         };
+        #[cfg(feature = "verif-hooks")]
+        if sim_hook::fail_fd_alloc(self.process_id, "open_tmpfile") {
+            return Err(Errno::EMFILE);
+        }
         self.current_process_mut()
             .open_fd(body)
             .map_err(|_| Errno::EMFILE)
@@ -791,6 +813,14 @@ impl Read for VirtualSystem {
         let system = self.clone();
         async move {
             let ofd = ofd?;
+            #[cfg(feature = "verif-hooks")]
+            sim_hook::preempt_point(system.process_id, "read").await;
+            #[cfg(feature = "verif-hooks")]
+            let buffer = {
+                let is_fifo = matches!(ofd.borrow().inode().borrow().body, FileBody::Fifo { .. });
+                let n = sim_hook::clamp(system.process_id, fd, false, buffer.len(), is_fifo);
+                &mut buffer[..n]
+            };
             let initial_signal_count = system.current_process().caught_signals_count;
             let waker: LazyCell<Rc<Cell<Option<Waker>>>> = LazyCell::default();
             poll_fn(|context| {
@@ -799,6 +829,10 @@ impl Read for VirtualSystem {
                     Rc::downgrade(&waker)
                 };
                 let result = ofd.borrow_mut().poll_read(buffer, get_waker);
+                #[cfg(feature = "verif-hooks")]
+                if let Poll::Ready(Ok(n)) = &result {
+                    sim_hook::event(system.process_id, "read", fd.0 as i64, *n as i64);
+                }
                 if result.is_pending()
                     && system.signal_interrupted(initial_signal_count, &waker, context)
                 {
@@ -837,6 +871,18 @@ impl Write for VirtualSystem {
         let system = self.clone();
         async move {
             let ofd = ofd?;
+            #[cfg(feature = "verif-hooks")]
+            sim_hook::preempt_point(system.process_id, "write").await;
+            #[cfg(feature = "verif-hooks")]
+            let buffer = {
+                let is_fifo = matches!(ofd.borrow().inode().borrow().body, FileBody::Fifo { .. });
+                if is_fifo && buffer.len() <= PIPE_BUF {
+                    buffer
+                } else {
+                    let n = sim_hook::clamp(system.process_id, fd, true, buffer.len(), is_fifo);
+                    &buffer[..n]
+                }
+            };
             let initial_signal_count = system.current_process().caught_signals_count;
             let mut bytes_written = 0usize;
             let waker: LazyCell<Rc<Cell<Option<Waker>>>> = LazyCell::default();
@@ -860,6 +906,10 @@ impl Write for VirtualSystem {
                 let result =
                     ofd.borrow_mut()
                         .poll_write_full(buffer, &mut bytes_written, get_waker);
+                #[cfg(feature = "verif-hooks")]
+                if let Poll::Ready(Ok(n)) = &result {
+                    sim_hook::event(system.process_id, "write", fd.0 as i64, *n as i64);
+                }
                 if result.is_pending()
                     && system.signal_interrupted(initial_signal_count, &waker, context)
                 {
@@ -1062,6 +1112,8 @@ impl Sigmask for VirtualSystem {
             if state_changed {
                 system.block_until_running().await;
             }
+            #[cfg(feature = "verif-hooks")]
+            sim_hook::preempt_point(system.process_id, "sigmask").await;
             Ok(())
         }
     }
@@ -1154,8 +1206,19 @@ impl SendSignal for VirtualSystem {
         };
 
         let system = self.clone();
+        #[cfg(feature = "verif-hooks")]
+        sim_hook::event(
+            self.process_id,
+            "kill",
+            target.0 as i64,
+            signal.map_or(0, |s| s.as_raw() as i64),
+        );
         async move {
             system.block_until_running().await;
+            #[cfg(feature = "verif-hooks")]
+            if system.current_process().state().is_alive() {
+                sim_hook::preempt_point(system.process_id, "kill").await;
+            }
             result
         }
     }
@@ -1271,6 +1334,8 @@ impl Fork for VirtualSystem {
         let parent_process = &state.processes[&self.process_id];
         let child_process = Process::fork_from(self.process_id, parent_process);
         state.processes.insert(child_process_id, child_process);
+        #[cfg(feature = "verif-hooks")]
+        sim_hook::event(self.process_id, "fork", child_process_id.0 as i64, 0);
 
         (Ok(child_process_id), shared_data)
     }
@@ -1285,6 +1350,22 @@ impl Wait for VirtualSystem {
         let mut state = self.state.borrow_mut();
         if let Some((pid, process)) = state.child_to_wait_for(parent_pid, target) {
             if process.state_has_changed() {
+                #[cfg(feature = "verif-hooks")]
+                sim_hook::event(
+                    parent_pid,
+                    "wait",
+                    pid.0 as i64,
+                    match process.state() {
+                        ProcessState::Running => -1,
+                        ProcessState::Halted(result) => {
+                            if result.is_stopped() {
+                                -2
+                            } else {
+                                ExitStatus::from(result).0 as i64
+                            }
+                        }
+                    },
+                );
                 Ok(Some((pid, process.take_state())))
             } else if process.state().is_alive() {
                 Ok(None)
@@ -1361,6 +1442,8 @@ impl Exec for VirtualSystem {
 
 impl Exit for VirtualSystem {
     fn exit(&self, exit_status: ExitStatus) -> impl Future<Output = Infallible> + use<> {
+        #[cfg(feature = "verif-hooks")]
+        sim_hook::event(self.process_id, "exit", exit_status.0 as i64, 0);
         let mut myself = self.current_process_mut();
         let parent_pid = myself.ppid;
         let exited = myself.set_state(ProcessState::exited(exit_status));
